@@ -173,6 +173,7 @@ std::string vf_run(const Case &c, vf::Ctx &ctx) {
   }
   for (auto &p : c.spec.root) if (p.depends && model.root.preset >= 0 && model.root.preset < 3 && p.has_preset[(size_t)model.root.preset]) preset_in_force = true;
   ctx.count("saved_lines", lines.size());
+  if (lines.size() > 32) ctx.count("class.more_than_32_lines");
   if (deep) ctx.count("class.changed_below_depth1");
   if (typed) ctx.count("class.non_int_kind_saved");
   if (preset_in_force) ctx.count("class.preset_dependent_default_in_force");
